@@ -61,6 +61,12 @@ def user_model(name):
 
         k = (MotifChange("A", "G") | MotifChange("C", "T")).aliased("kappa")
         return TimeReversibleDinucleotide(predicates=[k], name="dinuc", mprob_model=name.split(":")[2])
+    if name == "user:Codon:monomers":
+        from cogent3.evolve.predicate import omega
+        from cogent3.evolve.substitution_model import TimeReversibleCodon
+
+        k = (MotifChange("A", "G") | MotifChange("C", "T")).aliased("kappa")
+        return TimeReversibleCodon(predicates=[k, omega], mprob_model="monomers", name="pscodon")
     raise ValueError(name)
 
 
@@ -69,8 +75,12 @@ def make_lf(rec, **kw):
 
     sm = user_model(rec["name"]) if rec["name"].startswith("user:") else get_model(rec["name"], **kw)
     lf = sm.make_likelihood_function(tree())
-    pi = {word(w): float(frac(v)) for w, v in rec["pi"]}
-    lf.set_motif_probs(pi)
+    if rec["kind"] == "monomers":
+        for pos in ("0", "1", "2"):
+            lf.set_param_rule("psmprobs", position=pos, value={w[1]: float(frac(v)) for w, v in rec["pi"] if w[0] == pos}, is_constant=True)
+    else:
+        pi = {word(w): float(frac(v)) for w, v in rec["pi"]}
+        lf.set_motif_probs(pi)
     for pn, v in rec["params"]:
         lf.set_param_rule(pn, value=float(frac(v)), is_constant=True)
     return lf
